@@ -132,13 +132,15 @@ class HotReloader:
 
         try:
             if force:
-                # Full load regardless of current ETag.
-                policy = await maybe_await(self.source.load())
+                # Full load regardless of current ETag. Read the tag *before* loading (as the
+                # unforced path does): if the source changes between the two calls the stored
+                # tag is then the older one and the next check reloads.
                 try:
                     new_etag_any = await maybe_await(self.source.etag())
                     new_etag: str | None = new_etag_any if isinstance(new_etag_any, str) else None
                 except Exception:
                     new_etag = None
+                policy = await maybe_await(self.source.load())
 
                 with self._lock:
                     self.guard.set_policy(policy)
